@@ -372,6 +372,8 @@ fn run() {
             if prop == "C12" {
                 // the clean-ups of certify / trust / import prune the target's exemptions too
                 ucmd::run(&mut report);
+                // what real check runs report as fully audited against the records on disk
+                cmd::run(&mut report);
             }
         }
         "C09" | "C10" | "C11" | "C13" => {
